@@ -52,6 +52,13 @@ add("C12", "exploration", "bounded exhaustive enumeration; L<=n equality and sha
     "For every productive/reachable grammar (recursive start symbols included) the grammar handed to LALR(1) table construction must have the same L<=n, a start symbol with exactly one production that occurs on no right-hand side.",
     "L<=n reference")
 
+add("C19", "exploration", "bounded exhaustive enumeration of inputs incl. long error families; catch_unwind, action budget and hang monitor as oracle",
+    "Every accepted grammar of the C01/C03 spaces plus special grammars (terminals matching the empty string, overlapping regexes, comments) x every text up to length n over terminals, a foreign character, blank, a 2-byte character, plus error families of 1..150 foreign tokens, recovery on and off: each run must return Ok or Err without panic (debug assertions and overflow checks on), within an action budget and a 20 s wall-clock monitor, reporting at most 101 errors.",
+    BIND)
+add("C20", "model_checking", "exhaustive exploration of option settings (operations) per (grammar, input) against the baseline run of the real parser",
+    "For every (grammar, input) of the space the baseline run is compared with runs under every option setting: trim, recovery off, both, every depth limit from 0 to #applications+3 and 10^6 (with/without trim), and four parsers generated with the options baked into the source. Verdict and action trace must be equal unless MaxParsingDepthExceeded is returned, which must be monotone in the limit, absent at 10^6 and never a panic.",
+    BIND)
+
 NOT_BUILT = {}
 
 def main():
